@@ -1405,9 +1405,10 @@ class Session(AbstractSession):
                         left_f, right_f, map_f, ops.INVALID_INDEX, rdtype=map_f.data.dtype)
                     result = left_to_right_map
                 else:
-                    result = np.zeros(len(left_on), dtype=np.int64)
                     left_data = val.array_from_parameter(self, "left_on", left_on)
                     right_data = val.array_from_parameter(self, "right_on", right_on)
+                    # one map entry per left ROW (len() of an h5py group is its number of members)
+                    result = np.zeros(len(left_data), dtype=np.int64)
                     has_unmapped = \
                         ops.generate_ordered_map_to_left_right_unique(
                             left_data, right_data, result, ops.INVALID_INDEX)
@@ -1420,9 +1421,9 @@ class Session(AbstractSession):
                         left_f, right_f, map_f, ops.INVALID_INDEX, rdtype=map_f.data.dtype)
                     result = left_to_right_map
                 else:
-                    result = np.zeros(len(left_on), dtype=np.int64)
                     left_data = val.array_from_parameter(self, "left_on", left_on)
                     right_data = val.array_from_parameter(self, "right_on", right_on)
+                    result = np.zeros(len(left_data), dtype=np.int64)
                     has_unmapped = ops.generate_ordered_map_to_left_both_unique(
                         left_data, right_data, result, ops.INVALID_INDEX)
 
